@@ -2,12 +2,15 @@
 package c07
 
 import (
+	"bytes"
+	"context"
 	"encoding/xml"
 	"errors"
 	"fmt"
 	"io"
 	"strings"
 	"testing"
+	"time"
 
 	"pgregory.net/rapid"
 
@@ -25,6 +28,9 @@ import (
 func TestMain(m *testing.M) { ev.Main(m, "C07") }
 
 const stanzaErrNS = "urn:ietf:params:xml:ns:xmpp-stanzas"
+
+// outstandingID is the id of the application's own pending request.
+const outstandingID = "out-1"
 
 // ---------------------------------------------------------------- case model
 
@@ -55,8 +61,12 @@ type elem struct {
 }
 
 type tcase struct {
-	s2s     bool
-	useMux  bool
+	// the application has a request of its own outstanding (SendIQ waiting for
+	// its answer) whose id some incoming stanzas reuse: ids are only unique per
+	// sender, so an incoming get/set with that id is still a request to answer
+	outstanding bool
+	s2s         bool
+	useMux      bool
 	reg     map[string]bool // "type|space|local" registered in the mux
 	elems   []elem
 	closeIt bool
@@ -142,6 +152,8 @@ func genCase(t *rapid.T) tcase {
 			}
 		}
 	}
+	tc.outstanding = rapid.IntRange(0, 3).Draw(t, "outstanding") == 0
+	collided := false
 	n := rapid.IntRange(1, 5).Draw(t, "nelems")
 	for i := 0; i < n; i++ {
 		var e elem
@@ -165,6 +177,11 @@ func genCase(t *rapid.T) tcase {
 			e.id = ""
 		case 2:
 			e.id = gen.NonEmptyText(t, "idtext")
+		case 3:
+			if tc.outstanding && (e.typ == "get" || e.typ == "set") && !collided {
+				e.id = outstandingID
+				collided = true
+			}
 		}
 		if e.hasID {
 			attrs = append(attrs, xt.A("id", e.id))
@@ -235,7 +252,7 @@ func (tc tcase) ns() string {
 
 func (tc tcase) String() string {
 	var sb strings.Builder
-	fmt.Fprintf(&sb, "s2s=%v mux=%v", tc.s2s, tc.useMux)
+	fmt.Fprintf(&sb, "s2s=%v mux=%v own-request-%q-outstanding=%v", tc.s2s, tc.useMux, outstandingID, tc.outstanding)
 	if tc.useMux {
 		var ks []string
 		for k := range tc.reg {
@@ -508,9 +525,31 @@ func check(t interface {
 		}
 		h = mux.New(ns, mopts...)
 	}
+	octx, ocancel := context.WithCancel(context.Background())
+	defer ocancel()
+	odone := make(chan struct{})
+	if tc.outstanding {
+		go func() {
+			defer close(odone)
+			resp, _ := s.SendIQ(octx, xt.El(ns, "iq", []xml.Attr{xt.A("type", "get"), xt.A("id", outstandingID)}, xt.El("urn:xmpp:ping", "ping", nil)).Reader())
+			if resp != nil {
+				_ = resp.Close()
+			}
+		}()
+		// the request must be registered and on the wire before input is served
+		conn.WaitOutput(func(b []byte) bool { return bytes.Contains(b, []byte(outstandingID)) && bytes.HasSuffix(bytes.TrimSpace(b), []byte("</iq>")) }, 5*time.Second)
+	} else {
+		close(odone)
+	}
 	var serveErr error
 	if p := ev.Guard(func() { serveErr = s.Serve(h) }); p != "" {
 		fail("Serve panicked: %s", p)
+	}
+	ocancel()
+	select {
+	case <-odone:
+	case <-time.After(10 * time.Second):
+		fail("the application's own SendIQ did not return after its context was cancelled")
 	}
 
 	want, wantStreamErr := model(tc)
@@ -520,6 +559,7 @@ func check(t interface {
 		fail("output is not well-formed: %v\noutput: %q", perr, out)
 	}
 	var got []*xt.Node
+	skippedOwn := false
 	sawStreamErr := false
 	closes := 0
 	for _, it := range items {
@@ -531,6 +571,12 @@ func check(t interface {
 			}
 			if sawStreamErr {
 				fail("element after the stream error: %s\noutput: %q", it.Node.Canon(), out)
+			}
+			if id, _ := it.Node.Get("id"); tc.outstanding && !skippedOwn && id == outstandingID {
+				if typ, _ := it.Node.Get("type"); typ == "get" && it.Node.Find("ping") != nil {
+					skippedOwn = true // the application's own request
+					continue
+				}
 			}
 			got = append(got, it.Node)
 		case "close":
@@ -631,6 +677,14 @@ func classify(tc tcase) (bool, []string) {
 	}
 	if tc.s2s {
 		classes = append(classes, "s2s")
+	}
+	if tc.outstanding {
+		classes = append(classes, "own-request-outstanding")
+		for _, e := range tc.elems {
+			if e.id == outstandingID {
+				classes = append(classes, "incoming-request-reuses-own-id")
+			}
+		}
 	}
 	return nt, classes
 }
